@@ -4,7 +4,8 @@ import vlib
 from props import common, mix
 
 THM = "NextestModel.Thm.C15"
-GEN = []
+GEN = ["tables"]
+GEN_GROUPS = ["spawn"]
 CHECK_MODULES = ["NextestModel.Lemmas.Shell", "NextestModel.Model.Shell", "NextestModel.Model.Command"]
 TRUSTED = ["model: Model/Command (argv shape, create_command with and without the double-spawn launcher, order of the environment writes of TestCommand::new, EnvironmentMap::apply_env; std::process::Command::env = last write wins) and Model/Shell (shell_words 1.1.0 split/quote/join read from its source) — both corresponded in-process",
            "the guarded hook TestInstance::verif_make_command (calls make_command and returns get_program/get_args/get_envs/get_current_dir)",
